@@ -59,7 +59,45 @@ def rule_stack_pop(mod, rep):
                       "?user_free(%s) in the retry loop %s: the sizes of arrays whose allocation failed are popped too" %
                       (pfmt(poly), "is not guarded by a non-NULL test of an expand() result" if not guards else ("releases %d arrays at once" % nterms if nterms != 1 else "pops the size of another array than the one whose pointer is tested")), c.loc, f.name)
         if n == 0:
-            rep.brk("ANALYSIS-BROKEN STACK-POP: no ?user_free call inside a loop of %s" % f.name)
+            # mark / rewind form: the retry loop restores stack.top1 / stack.used from values saved earlier.  The saved position has to be the one the retry starts
+            # from: no allocation that is kept (a p?gstrf_expand / ?user_malloc call outside the loop) may lie between the mark and the loop.
+            allocs = {c.i for c in exp} | {c.i for c in f.calls("%suser_malloc" % prec)}
+            for h, body in loops:
+                for b in body:
+                    for st in f.blocks[b].insts:
+                        if st.op != "store" or not any(addr_is_field_cell(f, st, x, "LU_stack_t") for x in ("top1", "used")):
+                            continue
+                        # the saved value may arrive through phis (initialised to 0 on the system-memory path)
+                        leaves = []; seen = set(); work = [st.ops[0]]
+                        while work:
+                            v = strip_casts(f, work.pop())
+                            if v[0] != "v" or v[1] in seen:
+                                continue
+                            seen.add(v[1])
+                            if f.inst[v[1]].op == "phi":
+                                work += list(f.inst[v[1]].ops)
+                            elif f.inst[v[1]].op == "load":
+                                leaves.append(f.inst[v[1]])
+                        marks = [l for l in leaves if l.bb.id not in body and any(addr_is_field_cell(f, l, x, "LU_stack_t") for x in ("top1", "used"))]
+                        if not marks:
+                            continue
+                        mark = marks[0]
+                        n += 1
+                        hdr = f.blocks[h].insts[0]
+                        between = f.reach([mark], stop=lambda x: x.bb.id in body)
+                        # allocations made before the loop and made again inside it (their pointer enters a phi of the loop header) belong to the attempt
+                        redone = set()
+                        for ph in f.blocks[h].insts:
+                            if ph.op == "phi":
+                                for o, pb in zip(ph.ops, ph.inb):
+                                    if pb not in body:
+                                        redone |= _ptr_sources(f, o)
+                        kept = [i for i in between if i in allocs and f.inst[i].bb.id not in body and i not in redone]
+                        rep.check(not kept, "STACK-POP", "%s#rewind@%d" % (f.name, n), "the retry loop rewinds to a mark taken after the last allocation that is kept",
+                                  "the retry loop rewinds the user stack to a mark taken at %s, but an allocation that stays in use (%s) is made after the mark: the next attempt "
+                                  "is carved out of memory that array occupies" % (mark.loc, f.inst[kept[0]].loc if kept else ""), st.loc, f.name)
+        if n == 0:
+            rep.brk("ANALYSIS-BROKEN STACK-POP: no ?user_free call and no rewind inside a loop of %s" % f.name)
 
 
 def _ptr_sources(f, o, depth=0, seen=None):
